@@ -194,6 +194,17 @@ TStatics ==
     /\ Ev.same
     /\ UNCHANGED vars
 
+(* the storage of every policy as address ranges [lo, hi), coalesced per policy, sorted by lo and rank-encoded by   *)
+(* the harness: the keying assumed by ConcurrencyPaths.tla (SharedKinds = {}) holds iff no range reaches into the    *)
+(* next one (two overlapping ranges in the list necessarily belong to different policies).                        *)
+TFootprint ==
+    /\ IsEvent("footprint") /\ KeepLay
+    /\ LET cs == Ev.cells IN
+         /\ \A i \in DOMAIN cs : cs[i].lo < cs[i].hi
+         /\ \A i \in 1..(Len(cs) - 1) : cs[i].lo <= cs[i + 1].lo /\ cs[i].hi <= cs[i + 1].lo
+         /\ {cs[i].p : i \in DOMAIN cs} \subseteq Policy
+    /\ UNCHANGED vars
+
 (* ---- encoded dispatch data (C13) ---- *)
 (* what the real generator emitted for the last update: array sizes as declared (H headroom, S slots, *)
 (* E encoded v-table words, D decoded v-table cells, T dispatch-table cells) and the number of          *)
@@ -355,7 +366,7 @@ TNext ==
 
 TNextStep ==
     \/ TReset \/ TClass \/ TUnclass \/ TMethod \/ TUnmethod \/ TDef \/ TUndef \/ THandler
-    \/ TUpdate \/ TInstalled \/ TTable \/ TCTable \/ TResolve \/ TCall \/ TDied \/ TNext \/ TEnd \/ TLayout \/ TReads \/ TSkip \/ TStatics \/ TEncoded \/ TDecoded \/ TOffsets \/ TSLoad \/ TSSkip \/ TNode \/ TVptr \/ TVDerive \/ TVDrop \/ TVGet \/ TVCall \/ TVSkip
+    \/ TUpdate \/ TInstalled \/ TTable \/ TCTable \/ TResolve \/ TCall \/ TDied \/ TNext \/ TEnd \/ TLayout \/ TReads \/ TSkip \/ TStatics \/ TFootprint \/ TEncoded \/ TDecoded \/ TOffsets \/ TSLoad \/ TSSkip \/ TNode \/ TVptr \/ TVDerive \/ TVDrop \/ TVGet \/ TVCall \/ TVSkip
 
 TSpec == TInit /\ [][TNextStep]_tvars
 
